@@ -1664,6 +1664,7 @@ def check_c17(A: Analysis, col: Collector):
     # expanders
     sub = A.cls("pydra.engine.submitter.Submitter")
     seqs = {}
+    early_exits = {}
     for name in ("expand_workflow", "expand_workflow_async"):
         fn = sub.find_method(name)
         if fn is None:
@@ -1686,11 +1687,21 @@ def check_c17(A: Analysis, col: Collector):
                     extra = sorted(v.id for v in (n.test.values if isinstance(n.test, ast.BoolOp) else []) if isinstance(v, ast.Name))
                     steps.append("loop-until-all-done" + ("+runnable-list" if extra else ""))
         seqs[name] = steps
+        # exits taken before / outside the scheduling loop (an early `return` skips every node that has
+        # not been offered yet): both expanders must have the same ones
+        loop_nodes = [w for w in walk_own(fn.node) if isinstance(w, ast.While)]
+        exits = []
+        for n in walk_own(fn.node):
+            if isinstance(n, ast.Return) and not any(is_within(n, w) for w in loop_nodes):
+                # the guarding tests, outermost first
+                tests = [shape(p_.test, 60) for p_ in parents(n) if isinstance(p_, ast.If)]
+                exits.append("return-outside-loop[" + " & ".join(reversed(tests)) + "]")
+        early_exits[name] = sorted(exits)
     col.notes["expander_steps"] = seqs
     core = lambda seq: [s for s in seq if not s.startswith("worker.submit")]
     a, b = seqs["expand_workflow"], seqs["expand_workflow_async"]
 
-    def shape(seq):
+    def _collapse(seq):
         out = []
         for s in seq:
             if s.startswith("worker."):
@@ -1710,6 +1721,12 @@ def check_c17(A: Analysis, col: Collector):
             col.fail("C17.expanders", f"pydra.engine.submitter.Submitter.{name}", "prologue-order:" + ">".join(s for s in seq[:5]), f"{name}: prologue is {seq[:5]}, expected construct -> execution_graph -> return_values -> get_runnable_tasks", A.loc(sub.find_method(name).node))
         else:
             col.ok("C17.expanders", f"{name}: construct -> execution_graph -> return_values{{exec_graph,workflow}} -> get_runnable_tasks", A.loc(sub.find_method(name).node))
+    if early_exits["expand_workflow"] == early_exits["expand_workflow_async"]:
+        col.ok("C17.expanders", f"both expanders leave only through their scheduling loop (exits outside it: {early_exits['expand_workflow'] or 'none'})", A.loc(sub.find_method("expand_workflow").node))
+    else:
+        only_s = [e for e in early_exits["expand_workflow"] if e not in early_exits["expand_workflow_async"]]
+        only_a = [e for e in early_exits["expand_workflow_async"] if e not in early_exits["expand_workflow"]]
+        col.fail("C17.expanders", "pydra.engine.submitter.Submitter", f"early-exit:sync{only_s}:async{only_a}", f"the expanders disagree on exits outside the scheduling loop: only the sync one has {only_s or 'none'}, only the async one has {only_a or 'none'}; a return taken when the first scan offers no job (e.g. every first-level node splits over an empty list) skips the downstream nodes under one worker only", A.loc(sub.find_method("expand_workflow_async").node))
     la = [s for s in a if s.startswith("loop-until-all-done")]
     lb = [s for s in b if s.startswith("loop-until-all-done")]
     if la and lb and la[0] == lb[0]:
